@@ -735,6 +735,25 @@ def _run(ctx, root):
                         call_ops({'stack': stack, 'if_modified_since': bad, 'range': rng}, 'GET', '/s/', seenp, rng, st, hd, body, opened)
     os.utime(os.path.join(served, 'a.txt'), (T0, T0))
     fs_dirty()
+    # a conditional header never turns "no such file" into "not modified": whatever is not a file below the served directory (a directory,
+    # a missing name, a name that is too long for the file system) answers with or without If-Modified-Since alike; a served file or fallback
+    # answers 304 to a date in the far future
+    ORA_COND2 = 'conditional on non-files: If-Modified-Since does not change the answer for directories / missing names; served files become 304'
+    far = 'Thu, 31 Dec 2099 23:59:59 GMT'
+    for stack in ('wsgi', 'asgi'):
+        for route in ('/s/', '/d/', '/f/', '/g/', '/s/nested/x/'):
+            for rel in ['', 'sub', 'sub/', 'sub/.', 'emptydir', 'emptydir/', 'nested', 'nested/x', 'nested/x/', 'no-such-file', 'sub/no-such', 'a.txt', 'a.txt/', 'x' * 300, 'é' * 130, '.', './']:
+                raw = (route + rel).encode()
+                st0, hd0, _, body0, opened0, seenp0, err0 = request(stack, raw)
+                st1, hd1, _, body1, opened1, seenp1, err1 = request(stack, raw, headers={'If-Modified-Since': far})
+                what = None
+                if err0 or err1: what = f'raised {err0 or err1}'
+                elif st0 == 200 and st1 != 304: what = f'a served file ({st0} without the header) answers {st1} to If-Modified-Since: {far}'
+                elif st0 == 200 and body1: what = f'304 with a body {body1[:20]!r}'
+                elif st0 != 200 and st1 != st0: what = f'without the header {st0}, with If-Modified-Since {st1}: a conditional header changed the answer for something that is not a served file'
+                ctx.oracle(ORA_COND2, what is None, what, {'stack': stack, 'request_target': route + (rel if len(rel) < 40 else rel[:10] + f'...({len(rel)} chars)'), 'if_modified_since': far})
+                ctx.seen(('cond2', stack, route, rel), st0 == 200)
+                ctx.count('conditional_on_' + ('served_file' if st0 == 200 else 'non_file_%d' % st0))
     csess.finish()
 
     # ---------------------------------------------------------------- 5. match(), directly on StaticRoute objects
